@@ -274,6 +274,9 @@ func (l *WAL) Switch() (*WalFiles, error) {
 
 	walFiles := newWalFiles(l.maxRowTime, l.lock, l.logPath)
 	l.maxRowTime = math.MinInt64
+	// the serial replay reads the partitions round-robin starting at partition 0, so every
+	// generation of log files has to start its round-robin at partition 0 too
+	atomic.StoreUint64(&l.writeReq, 0)
 
 	for i := 0; i < l.partitionNum; i++ {
 		go func(lw *LogWriter) {
